@@ -132,11 +132,29 @@ def build_kmodel(force=False):
     ext = os.path.join(BUILD, "extract")
     subprocess.run(["rm", "-rf", ext])
     os.makedirs(ext)
+    # All Extract/*.v files are merged into ONE extraction run (separate runs would overwrite each other's shared modules):
+    # the union of their `From KV Require Import ...` modules and of their `Separate Extraction ...` items.
     exdir = os.path.join(COQ, "theories", "Extract")
+    mods, items = [], []
     for ev in sorted(f for f in os.listdir(exdir) if f.endswith(".v")):
-        rc, out = run_cmd(["coqc", "-Q", os.path.join(COQ, "theories"), "KV", os.path.join(exdir, ev)], cwd=ext, timeout=900)
-        if rc:
-            return False, "extraction failed (%s):\n%s" % (ev, out)
+        text = strip_coq_comments(open(os.path.join(exdir, ev)).read())
+        for req in re.finditer(r"From\s+KV\s+Require\s+(?:Import\s+|Export\s+)?(.*?)\.(?=\s)", text, re.S):
+            for name in req.group(1).split():
+                if name not in mods:
+                    mods.append(name)
+        for se in re.finditer(r"Separate\s+Extraction\s+(.*?)\.(?=\s|$)", text, re.S):
+            for it in se.group(1).split():
+                if it not in items:
+                    items.append(it)
+    allv = os.path.join(ext, "ExtractAll.v")
+    with open(allv, "w") as f:
+        f.write("From Coq Require Import Extraction ExtrOcamlBasic ExtrOcamlNativeString.\n")
+        f.write("From KV Require Import %s.\n" % " ".join(mods))
+        f.write("Extraction Blacklist String List Bool.\n")
+        f.write("Separate Extraction\n  %s.\n" % "\n  ".join(items))
+    rc, out = run_cmd(["coqc", "-Q", os.path.join(COQ, "theories"), "KV", allv], cwd=ext, timeout=1800)
+    if rc:
+        return False, "extraction failed:\n%s" % out
     odir = os.path.join(VERIF, "ocaml")
     cmds = sorted(f for f in os.listdir(odir) if f.startswith("cmds_") and f.endswith(".ml"))
     for f in ["kcore.ml", "kmain.ml"] + cmds:
